@@ -6,7 +6,7 @@
 
 use crate::api::{self, Outcome};
 use crate::evidence::{run_cases, Ctx, Local, Report, Violation};
-use crate::gen::{self, path_str, StratKind};
+use crate::gen::{self, StratKind};
 use crate::model::{self, Fmt};
 use crate::pipeline::{self, Config, IssueFail, Issued, Scenario};
 use crate::rng::Rng;
@@ -71,41 +71,60 @@ pub fn check_issued(case: u64, s: &Scenario, iss: &Issued, l: &mut Local, input:
         }
     }
     l.add("decoy.digests.seen", iss.loc.unmatched.len() as u64);
-    // tag leak detector (independent of the JSON walk)
+    // tag leak detector (independent of the JSON walk): every occurrence of a tag in U has
+    // exactly one home text (the payload, or the disclosure of its nearest SD ancestor-or-self);
+    // each text must contain each tag exactly as often as it is at home there, and no more.
     if bad == 0 {
-        let texts: Vec<&str> = std::iter::once(iss.payload_text.as_str())
-            .chain(iss.by.values().map(|d| d.text.as_str()))
-            .collect();
+        use std::collections::HashMap;
+        // text ids: 0 = payload, 1.. = disclosures in by-order
+        let mut texts: Vec<&str> = vec![iss.payload_text.as_str()];
+        let mut id_of_raw: HashMap<&str, usize> = HashMap::new();
+        for d in iss.by.values() {
+            id_of_raw.insert(d.raw.as_str(), texts.len());
+            texts.push(d.text.as_str());
+        }
+        let mut expected: HashMap<String, HashMap<usize, usize>> = HashMap::new();
+        let mut hidden_tags = 0u64;
+        let mut resolvable = true;
         for (tag, path) in model::tags_of(&s.u) {
-            let home_text: &str = match model::sd_home(&path, &s.strat.sd) {
-                None => iss.payload_text.as_str(),
-                Some(h) => match iss.loc.map.get(&h) {
-                    Some(raw) => match iss.by.get(&model::digest_of(raw)) {
-                        Some(d) => d.text.as_str(),
-                        None => continue,
-                    },
-                    None => continue,
-                },
+            let home = match model::sd_home(&path, &s.strat.sd) {
+                None => 0usize,
+                Some(h) => {
+                    hidden_tags += 1;
+                    match iss.loc.map.get(&h).and_then(|raw| id_of_raw.get(raw.as_str())) {
+                        Some(i) => *i,
+                        None => {
+                            resolvable = false;
+                            continue;
+                        }
+                    }
+                }
             };
-            let total: usize = texts.iter().map(|t| model::count_occurrences(t, &tag)).sum();
-            let at_home = model::count_occurrences(home_text, &tag);
-            l.count("tags.checked");
-            if model::sd_home(&path, &s.strat.sd).is_some() {
-                l.count("tags.hidden");
-            }
-            if total != 1 || at_home != 1 {
-                bad += 1;
-                l.violate(viol(
-                    case,
-                    "tag-leak",
-                    class,
-                    format!(
-                        "tag occurs {total} time(s) overall, {at_home} in its home text ({})",
-                        if model::sd_home(&path, &s.strat.sd).is_some() { "hidden" } else { "visible" }
-                    ),
-                    json!({"input": input(), "tag": tag, "path": path_str(&path), "payload_text": iss.payload_text,
-                           "disclosures": iss.by.values().map(|d| d.text.clone()).collect::<Vec<_>>()}),
-                ));
+            *expected.entry(tag).or_default().entry(home).or_default() += 1;
+        }
+        if resolvable {
+            l.add("tags.hidden", hidden_tags);
+            for (tag, homes) in &expected {
+                l.count("tags.checked");
+                for (i, t) in texts.iter().enumerate() {
+                    let want = homes.get(&i).copied().unwrap_or(0);
+                    let got = model::count_occurrences(t, tag);
+                    if want != got {
+                        bad += 1;
+                        l.violate(viol(
+                            case,
+                            "tag-leak",
+                            class,
+                            format!(
+                                "tag occurs {got} time(s) in {} where {want} expected",
+                                if i == 0 { "the payload" } else { "a disclosure" }
+                            ),
+                            json!({"input": input(), "tag": tag, "text_index": i, "text": t, "payload_text": iss.payload_text,
+                                   "disclosures": iss.by.values().map(|d| d.text.clone()).collect::<Vec<_>>()}),
+                        ));
+                        break;
+                    }
+                }
             }
         }
     }
